@@ -246,7 +246,7 @@ def run(ck: Check):
         #     (every full cache costs a round trip to the multiprocessing manager: mem / hdf are slow)
         core = next(e for e in entries if e.name == "Sellar1")
         replay(core, cat.JSON, "simple", None)
-        replay(core, cat.JSON, "hdf-snapshot", 2000 if T else 150)
+        replay(core, cat.JSON, "hdf-snapshot", 1500 if T else 150)
         replay(core, cat.JSON, "hdf-shared", 1000 if T else 120)
         replay(core, cat.JSON, "mem", 300 if T else 40)      # stops at Pickle while D10 stands
         replay(core, cat.SIMPLE, "simple", None if T else 300)
@@ -273,7 +273,7 @@ def run(ck: Check):
             n = {"simple": 6, "stateful": 8, "jacinrun": 6, "jacinrun-hdf": 3, "hdf-snapshot": 3, "mem": 1,
                  "nocache": 12, "db": 30}[conf]
             if T:
-                n *= 6
+                n *= 4
             if e.name == "AnalyticDiscipline" or e.name.startswith("Sobieski"):
                 n *= 4   # classes with their own exclusion list / __setstate__
             replay(e, gt, conf, max(1, n // e.cost))
